@@ -228,10 +228,10 @@ func main() {
 	if s := os.Getenv("C16_DEPTH"); s != "" {
 		fmt.Sscan(s, &depth)
 	}
-	r.Rule("every type of the grammar {int32,float64,string,bool} | *T | []T | [2]T | map[K]T | struct{a T; b U} | func(T) U | interface{} | named | named-with-method up to the constructor depth, in each of 9 contexts, each touching the value; plus every program of the arith/ctrl corpus; each program through go2wa -> api.BuildFile -> watutil.Wat2Wasm in a worker process and the binary through V8's WebAssembly.validate; distinct = distinct (outcome stage, type skeleton, context) classes")
+	r.Rule("every type of the grammar {int32,float64,string,bool} | *T | []T | [2]T | map[K]T | struct{a T; b U} | func(T) U | interface{} | named | named-with-method up to the constructor depth, in each of 9 contexts, each touching the value; plus every program of the differential-execution corpus (progs.AllFamilies); each program through go2wa -> api.BuildFile -> watutil.Wat2Wasm in a worker process and the binary through V8's WebAssembly.validate; distinct = distinct (outcome stage, type skeleton, context) classes")
 	r.Bound("constructor_depth", depth)
 	r.Assume("domain: programs accepted by Go's type checker (go/types, 32-bit int) and by Wa's front end; a program Wa's front end rejects is recorded as a note, not as a violation")
-	r.Assume("documented restrictions (docs/goals.md): no goroutines (`go`), no channels; the grammar uses neither, nor complex numbers, method values or reflection ('may have' features)")
+	r.Assume("documented restrictions (docs/goals.md): no goroutines (`go`), no channels; complex numbers, reflection 'may have', method values 'may be absent': the type grammar uses none of them and corpus groups about method values / method expressions are excluded")
 	r.Assume("from depth 2 on, the binary constructors (map, struct, func) take every type of the previous depth in one position and a representative in the other (int32; thorough: at depth 2 also string); pointer-receiver methods on every type Go allows as receiver base, value-receiver methods on the basic types and the depth-1 types over int32")
 	r.Assume("programs are compiled and validated, not executed (execution is C01's subject)")
 
@@ -247,31 +247,66 @@ func main() {
 
 	// ---------------------------------------------------------------- corpus
 	if os.Getenv("C16_NOCORPUS") == "" {
-		types := progs.IntTypes
-		fams := []progs.Family{progs.FamIntBinary(types), progs.FamIntUnary(types), progs.FamShift(types), progs.FamIntConv(types), progs.FamFloat(types), progs.FamCtrl(r.Thorough())}
-		var srcs, names []string
-		for _, f := range fams {
-			ss, _ := progs.RenderFamilyPrograms(f, 12)
-			for i, s := range ss {
-				srcs = append(srcs, s)
-				names = append(names, fmt.Sprintf("%s#%d", f.Name, i))
+		type cprog struct {
+			fam    string
+			name   string
+			groups []progs.Group
+		}
+		var cps []cprog
+		nExcluded := 0
+		for _, f := range progs.AllFamilies(r.Thorough()) {
+			// documented restriction (docs/goals.md: method values "may be absent"): groups about
+			// method values / method expressions are outside the property's domain
+			var keep []progs.Group
+			for _, g := range f.Groups {
+				n := strings.ToLower(g.Name)
+				if strings.Contains(n, "method-value") || strings.Contains(n, "method-expression") || strings.Contains(n, "method value") || strings.Contains(n, "method expression") {
+					nExcluded++
+					continue
+				}
+				keep = append(keep, g)
+			}
+			f.Groups = keep
+			for lo := 0; lo < len(f.Groups); lo += 12 {
+				hi := min(lo+12, len(f.Groups))
+				cps = append(cps, cprog{f.Name, fmt.Sprintf("%s#%d", f.Name, lo/12), f.Groups[lo:hi]})
 			}
 		}
-		r.Bound("corpus_programs", len(srcs))
-		outs := x.runPrograms(srcs, false)
-		for i, o := range outs {
-			fam := strings.SplitN(names[i], "#", 2)[0]
-			if o.stage == "ok" {
-				r.Distinct("corpus|ok|" + fam)
-				continue
+		r.Bound("corpus_programs", len(cps))
+		ngroups := 0
+		for round := 0; len(cps) > 0; round++ {
+			srcs := make([]string, len(cps))
+			for i, cp := range cps {
+				ss, _ := progs.RenderFamilyPrograms(progs.Family{Name: cp.fam, Groups: cp.groups}, len(cp.groups))
+				srcs[i] = ss[0]
 			}
-			if o.stage == "frontend" || o.stage == "go2wa" {
-				// the differential checks report their own compile failures item by item
-				r.Distinct("corpus|" + o.stage + "|" + fam)
-				continue
+			outs := x.runPrograms(srcs, false)
+			var next []cprog
+			for i, o := range outs {
+				cp := cps[i]
+				if o.stage == "ok" {
+					ngroups += len(cp.groups)
+					r.Distinct("corpus|ok|" + cp.fam)
+					continue
+				}
+				if len(cp.groups) > 1 {
+					// one failing case must not hide the others: re-run every group alone
+					for gi := range cp.groups {
+						next = append(next, cprog{cp.fam, cp.name + "/" + cp.groups[gi].Name, cp.groups[gi : gi+1]})
+					}
+					continue
+				}
+				if o.stage == "frontend" || o.stage == "go2wa" {
+					// outside the domain; the differential checks report their own compile failures item by item
+					r.Distinct("corpus|" + o.stage + "|" + cp.fam)
+					continue
+				}
+				r.Report("C16|corpus|"+o.stage+"|"+cp.fam+"|"+normMsg(o.msg), fmt.Sprintf("corpus program %s (family %s, one group): %s: %s", cp.name, cp.fam, o.stage, clip(o.msg, 300)), map[string]any{"go_source": srcs[i]})
 			}
-			r.Report("C16|corpus|"+o.stage+"|"+fam+"|"+normMsg(o.msg), fmt.Sprintf("corpus program %s: %s: %s", names[i], o.stage, clip(o.msg, 300)), map[string]any{"go_source": srcs[i]})
+			cps = next
 		}
+		r.Extra("corpus_groups_ok", ngroups)
+		r.Extra("corpus_groups_excluded_method_values", nExcluded)
 	}
 
 	// ---------------------------------------------------------------- types family
@@ -364,10 +399,17 @@ func main() {
 				}
 				continue
 			}
-			// items are packed by (context, constructor) class, so a failing program mostly
-			// consists of failing items: go to single items at once
-			for _, it := range b {
-				next = append(next, []progs.TypeItem{it})
+			// items are packed by (context, constructor) class, so failing items cluster: a failing
+			// program is cut into quarters, a failing quarter into single items
+			if len(b) > 8 {
+				q := (len(b) + 3) / 4
+				for lo := 0; lo < len(b); lo += q {
+					next = append(next, b[lo:min(lo+q, len(b))])
+				}
+			} else {
+				for _, it := range b {
+					next = append(next, []progs.TypeItem{it})
+				}
 			}
 		}
 		batches = next
@@ -377,9 +419,11 @@ func main() {
 	sort.Slice(failures, func(a, b int) bool { return failures[a].item.Index < failures[b].item.Index })
 	sort.Slice(notes, func(a, b int) bool { return notes[a].item.Index < notes[b].item.Index })
 	seen := map[string]bool{}
+	confirmed := map[string]bool{} // (stage, message, constructor) classes re-run three more times
 	classCount := map[string]int{}
 	for _, f := range failures {
-		key := "C16|types|" + f.out.stage + "|" + normMsg(f.out.msg) + "|" + f.item.Outer + "|" + f.item.Context
+		class := f.out.stage + "|" + normMsg(f.out.msg) + "|" + f.item.Outer
+		key := "C16|types|" + class + "|" + f.item.Context
 		r.Distinct(f.out.stage + "|" + f.item.Skel + "|" + f.item.Context)
 		classCount[key]++
 		if seen[key] {
@@ -387,19 +431,25 @@ func main() {
 		}
 		seen[key] = true
 		src := progs.RenderTypeProgram([]progs.TypeItem{f.item}, true)
-		// confirm three more times, alone
-		conf := x.runPrograms([]string{src, src, src}, true)
-		same := true
-		for _, c := range conf {
-			if c.stage != f.out.stage || normMsg(c.msg) != normMsg(f.out.msg) {
-				same = false
+		how := "failed alone"
+		if !confirmed[class] {
+			// the first witness of every (stage, message, constructor) class is re-run three more
+			// times, alone: a crash must reproduce every time
+			confirmed[class] = true
+			conf := x.runPrograms([]string{src, src, src}, true)
+			same := true
+			for _, c := range conf {
+				if c.stage != f.out.stage || normMsg(c.msg) != normMsg(f.out.msg) {
+					same = false
+				}
 			}
+			if !same {
+				r.HarnessError("outcome of %s in %s is not reproducible: %v then %v", f.item.Shape, f.item.Context, f.out, conf)
+				continue
+			}
+			how = "reproduced 4x alone"
 		}
-		if !same {
-			r.HarnessError("outcome of %s in %s is not reproducible: %v then %v", f.item.Shape, f.item.Context, f.out, conf)
-			continue
-		}
-		r.Report(key, fmt.Sprintf("type %s in context %s: %s: %s (Go accepts the program; reproduced 4x alone)", f.item.Shape, f.item.Context, f.out.stage, clip(f.out.msg, 300)),
+		r.Report(key, fmt.Sprintf("type %s in context %s: %s: %s (Go accepts the program; %s)", f.item.Shape, f.item.Context, f.out.stage, clip(f.out.msg, 300), how),
 			map[string]any{"shape": f.item.Shape, "context": f.item.Context, "wa_source": src, "go_source": progs.RenderTypeProgram([]progs.TypeItem{f.item}, false), "stage": f.out.stage, "message": f.out.msg})
 	}
 	// notes: programs Go accepts and Wa's front end rejects
